@@ -27,15 +27,18 @@ RULE = (
     "test cases = one directed call per hostile effect (print, raise, SystemExit, close fd 0/1/2, open(1), dup2, "
     "sys.stdout/stderr/stdin replaced or closed, logging.disable/basicConfig/setLevel/addHandler/shutdown, random.seed, "
     "random draws, non-terminating loop) plus RandomLengthTestCaseFactory tests over the same module, executed through the "
-    "unmodified TestCaseExecutor; oracle 1: process-state snapshot equal before/after every execute; oracle 2: summary of "
-    "test t inside a random permutation (4-10 tests, one executor) == summary of t alone in a freshly forked process, only "
-    "for the module without hidden state; a case is distinct by the sequence of test sources"
+    "unmodified TestCaseExecutor in histories of 3-30 tests, one freshly forked process per history (Pynguin's RNG is advanced "
+    "between executions); oracle 1: process-state snapshot equal before/after every execute; oracle 2: every occurrence of a "
+    "test in any history has the same summary as its occurrence as *first* test of a history (= alone in a fresh process), only "
+    "for the module without hidden state; a mismatch is attributed to (API whose effect leaked -> API that observed it) from the "
+    "data and confirmed by re-running the two single-call tests in a fresh process; a case is distinct by the sequence of test sources"
 )
 ASSUMPTIONS = [
     "os.fstat inode, object identity and logging/random getstate() are a faithful observation of the process state",
     "a fork taken right after the instrumented import is a 'fresh process'",
-    "a test whose two stand-alone executions differ is not deterministic and is excluded (counted as anomaly)",
-    "a mismatch that does not reproduce on an identical second run is load noise (anomaly), not a violation",
+    "a test whose stand-alone executions (first position of several histories) differ is not deterministic and is excluded (anomaly)",
+    "no function of the stateless module loops, so a timeout there is a starved thread on a loaded machine (anomaly, dropped)",
+    "a mismatch that cannot be reproduced in a fresh process is load noise (anomaly), not a violation",
     "modules that mutate their own globals / hold a module-level Random instance are exempt from order independence",
     "random.getstate() of the global `random` module is not Pynguin's own stream and is not part of the snapshot",
 ]
